@@ -35,7 +35,8 @@
                       at the end of its data, the service log is a PREFIX of the calls of the reading;
      C16_full_linear  C16_full restricted to straight-line scripts: in every honest history the invocations are a
                       prefix of the calls of SeqSem.seq_eval, in its order (hence a sub-multiset);
-     C16_reading_has_full  the full trace F is defined whenever the reading is, with the reading's calls and status. *)
+     C16_reading_has_full / C16_full_is_reading  the full trace F is defined exactly when the reading is (on straight-line
+                      scripts), with the reading's calls and status. *)
 From Aqua Require Import Base Json Air Trace Values Exec RunExec ExecStreams SeqSem SeqFrag SeqLocal SeqProofs SeqLocalProofs NetLin NetLinProofs.
 Open Scope N_scope.
 Open Scope list_scope.
@@ -123,6 +124,9 @@ Proof. exact history_is_seqlocal. Qed.
 Theorem C16_reading_has_full : forall svc init ts ttl, reading_has_full_stmt svc init ts ttl.
 Proof. exact reading_has_full. Qed.
 
+Theorem C16_full_is_reading : forall svc init ts ttl, full_is_reading_stmt svc init ts ttl.
+Proof. exact full_is_reading. Qed.
+
 Theorem C16_full_linear : forall svc init ts ttl, C16_full_linear_stmt svc init ts ttl.
 Proof. exact NetLinProofs.C16_full_linear. Qed.
 
@@ -172,6 +176,7 @@ Print Assumptions C16_net_invariant.
 Print Assumptions C16_log_is_prefix.
 Print Assumptions C16_history_is_seqlocal.
 Print Assumptions C16_reading_has_full.
+Print Assumptions C16_full_is_reading.
 Print Assumptions C16_full_linear.
 Print Assumptions C16_reading_fuel_monotone.
 Print Assumptions C16_reading_function_of_services.
